@@ -212,6 +212,16 @@ class Evaluator:
 
     def _consume(self, v):
         """the items an iteration over `v` sees; for a one-shot iterator this exhausts it"""
+        if T.tag(v) == 'cls':
+            ci = self.p.classes.get(v[1])
+            if ci is not None and ci.is_enum:
+                # iterating an Enum class: its members in definition order (aliases are skipped)
+                seen, out = [], []
+                for _n, m in self._enum_members(ci, 0):
+                    if m not in seen:
+                        seen.append(m)
+                        out.append(m)
+                return T.lst(out)
         if not T.is_op(v, 'ITER'):
             return v
         data, pos = self.heap[v[2][1]]
@@ -2163,6 +2173,19 @@ class Evaluator:
                 return T.const(base[2])
             if name == 'value':
                 return base[3]
+            ci = self.p.classes.get(base[1])
+            m = ci.find_method(name) if ci is not None else None
+            if m is not None:
+                # a property / method the enum class defines for its members
+                if m.kind == 'property':
+                    v, f2 = self._invoke(m, [base], {}, fr.facts, fr.depth + 1)
+                    fr.facts = f2
+                    return v
+                if m.kind == 'staticmethod':
+                    return T.funcref(m.qual)
+                if m.kind == 'classmethod':
+                    return T.bound(T.clsref(ci.qual), m.qual)
+                return T.bound(base, m.qual)
             return T.opaque('enum attribute')
         if k == 'module':
             mi = self.p.modules[base[1]]
